@@ -178,5 +178,5 @@ def main(ctx):
     ctx.rule = "baseline + every single deviation (thorough: every pair) per configuration; evaluations = runs; non-trivial = deviation runs compared with their baseline; states = configurations"
     ctx.assumptions = ["joblib/loky returns results in submission order; completion order of workers is not enumerated", "bit-exact comparison of the five history arrays and of the return value"]
     ctx.pmap("vf.checks.c01:run_cell", cells)
-    ctx.require(ctx.stats.get("baseline_raised", 0) >= 5, "the history-driven-sampler-first configurations did not raise")
+    ctx.require(ctx.stats.get("baseline_raised", 0) >= 4, "the history-driven-sampler-first configurations did not raise (BestBatch, CORS, RandomForest, GaussianProcess do on an empty history; XGBoost fits on zero rows)")
     ctx.require(ctx.nontrivial > 1000, "too few deviation runs")
